@@ -124,6 +124,18 @@ func (r *rwRT) ruleScopeAgree(seqForHolds bool, mode string) {
 								bodyYields = true // ... and no clause does: not a combination a program produces
 							}
 						}
+						if bo := p.o.St.Obj(unwrap(body)); bo != nil && !bodyYields {
+							// ... the same answer given about one of the clauses
+							if cl, ok := bo.Fields["List"].(SliceV); ok {
+								for _, ce := range cl.Elems {
+									for _, l := range p.o.St.Labels {
+										if l == "mustNoYield("+argLabel(ce)+")=false" {
+											bodyYields = true
+										}
+									}
+								}
+							}
+						}
 						if !bodyYields {
 							nativePaths++
 							for _, e := range p.o.St.Events {
@@ -131,6 +143,14 @@ func (r *rwRT) ruleScopeAgree(seqForHolds bool, mode string) {
 									continue
 								}
 								walked := e.Fn.Name() == "Apply" && strings.Contains(fnPkgPath(e.Fn), "astutil") && len(e.Args) == 3 && sameAV(unwrap(e.Args[0]), unwrap(body))
+								if !walked && e.Fn.Name() == "Apply" && strings.Contains(fnPkgPath(e.Fn), "astutil") && len(e.Args) == 3 {
+									// ... or clause by clause: the root is a block this path hands to the block lowering
+									for _, l := range p.o.St.Events {
+										if l.Kind == "call" && l.Fn != nil && inRw(l.Fn) && l.Fn.Name() == "rewriteBlockStmt" && len(l.Args) >= 2 && sameAV(unwrap(l.Args[1]), unwrap(e.Args[0])) {
+											walked = true
+										}
+									}
+								}
 								if inRw(e.Fn) && isRecursiveAstWalk(e.Fn) {
 									for _, a := range e.Args {
 										if sameAV(unwrap(a), unwrap(body)) {
@@ -543,6 +563,24 @@ func (r *rwRT) switchBreaksRewritten(in *Interp, o Outcome, shp *astInput) error
 			return errInfeasiblePath
 		}
 	}
+	// the same answer given clause by clause
+	if bo := o.St.Obj(unwrap(body)); bo != nil {
+		if l, ok := bo.Fields["List"].(SliceV); ok && len(l.Elems) > 0 {
+			all := true
+			for _, cl := range l.Elems {
+				has := false
+				for _, lb := range o.St.Labels {
+					if lb == "mustNoYield("+argLabel(cl)+")=true" {
+						has = true
+					}
+				}
+				all = all && has
+			}
+			if all {
+				return errInfeasiblePath
+			}
+		}
+	}
 	firstLower := len(o.St.Events)
 	for i, e := range o.St.Events {
 		if e.Kind == "call" && e.Fn != nil && inRw(e.Fn) && e.Fn.Name() == "rewriteBlockStmt" {
@@ -557,6 +595,37 @@ func (r *rwRT) switchBreaksRewritten(in *Interp, o Outcome, shp *astInput) error
 				return fmt.Errorf("the traversal of the switch body uses a post-order callback (pruning needs the pre-order one)")
 			}
 			cb = e.Args[1]
+		}
+	}
+	if cb == nil {
+		// ... or clause by clause: every block handed to the block lowering on this path was traversed, right
+		// before, by one and the same pre-order callback (the clauses do not refer to each other)
+		lowered, traversed := 0, 0
+		var cbFn *ssaFunction
+		same := true
+		for i, e := range o.St.Events {
+			if e.Kind != "call" || e.Fn == nil || !inRw(e.Fn) || e.Fn.Name() != "rewriteBlockStmt" || len(e.Args) < 2 {
+				continue
+			}
+			lowered++
+			for _, t := range o.St.Events[:i] {
+				if t.Kind == "call" && t.Fn != nil && t.Fn.Name() == "Apply" && strings.Contains(fnPkgPath(t.Fn), "astutil") && len(t.Args) == 3 && sameAV(unwrap(t.Args[0]), unwrap(e.Args[1])) {
+					cl, isCl := t.Args[1].(Closure)
+					if n, known := nilness(t.Args[2]); !isCl || !known || !n {
+						continue
+					}
+					if cbFn != nil && cbFn != cl.Fn {
+						same = false
+					}
+					cbFn = cl.Fn
+					cb = t.Args[1]
+					traversed++
+					break
+				}
+			}
+		}
+		if cb != nil && (traversed != lowered || !same) {
+			return fmt.Errorf("%d of the %d clause bodies lowered on this path are traversed for the breaks of the switch before they are lowered", traversed, lowered)
 		}
 	}
 	if cb == nil {
